@@ -57,10 +57,11 @@ type fqVector struct {
 }
 
 // codes used when the short model encoding is spread over a 256-entry vector
-var fqSpread = []int{0, 65, 200, 255}
+var fqSpread = []int{0, 65, 128, 200, 254, 255}
 
 // the order of the name pool assumed by FontQuery!FqNameOrder
-var fqNameOrder = []string{".notdef", "a", "ab", "b", "c", "zz"}
+var fqNameOrder = []string{".notdef", "Ab", "B", "a", "ab", "b", "c", "d01", "d02", "d03", "d04", "d05", "d06", "d07", "d08", "d09",
+	"d10", "d11", "d12", "d13", "d14", "zz"}
 
 func fqScale(x2 int64) float64 {
 	switch x2 {
